@@ -310,13 +310,22 @@ fn random_generic_case(src: &mut Src, ctx: &mut Ctx) -> Result<(), String> {
 }
 
 // ---- embedded orderers ----------------------------------------------------------------------------------
+thread_local! {
+    /// foundry-style names: longer than the 32 characters old GDSII tools allowed, alike in their first 40
+    static LONG_NAMES: std::cell::Cell<bool> = const { std::cell::Cell::new(false) };
+}
 fn name_of(i: usize) -> String {
-    format!("c{}", i)
+    if LONG_NAMES.with(|c| c.get()) {
+        format!("sky130_fd_pr__rf_nfet_01v8_aM02W1p65L0p15_c{}", i)
+    } else {
+        format!("c{}", i)
+    }
 }
 fn index_of(name: &str) -> Result<usize, String> {
-    name.strip_prefix('c').and_then(|s| s.parse().ok()).ok_or_else(|| format!("unexpected cell name {}", name))
+    name.rfind('c').and_then(|k| name[k + 1..].parse().ok()).ok_or_else(|| format!("unexpected cell name {}", name))
 }
 fn gen_embedded(src: &mut Src) -> (Graph, Vec<usize>) {
+    LONG_NAMES.with(|c| c.set(src.prob(1, 4)));
     let big = src.prob(1, 10);
     gen_graph(src, if big { 200 } else { 12 })
 }
@@ -466,7 +475,9 @@ fn tetris_lib(g: &Graph, listing: &[usize], views: u64) -> tet::library::Library
         }
         let lay = c.layout.as_mut().unwrap();
         for (k, d) in deps.iter().enumerate() {
-            lay.instances.add(Instance { inst_name: format!("i{}", k), cell: ptrs[*d].clone(), loc: (k as isize, 0isize).into(), reflect_horiz: false, reflect_vert: false });
+            // (instance names in bus notation now and then: `u[1]`, `bit[7]`)
+            let iname = match (k + i) % 5 { 3 => format!("u[{}]", k + 1), 4 => format!("bit{}[7]", k), _ => format!("i{}", k) };
+            lay.instances.add(Instance { inst_name: iname, cell: ptrs[*d].clone(), loc: (k as isize, 0isize).into(), reflect_horiz: false, reflect_vert: false });
             if twice(views, i, k) {
                 lay.instances.add(Instance { inst_name: format!("i{}b", k), cell: ptrs[*d].clone(), loc: (k as isize, 1isize).into(), reflect_horiz: false, reflect_vert: false });
             }
